@@ -82,7 +82,7 @@ def classify_jv(r):
 
 OPERANDS = ["", " ", "  ", "::", "a::", "::a", "a::b", "a:::b", "a b", "m::r", "m r", "m", "r", "-", "--", "=", "a=", "=a", "v=1",
             "%Q", "%", "%9999999999d", "%-", "{", "{{", "}}", "\u00e9", "\U0001F600", "a\nb", "\t", "..", "/", ".", "\\", "'", "\"",
-            "x" * 5000, "0", "-1", "[", "*", "$(", "`"]
+            "x" * 5000, "0", "-1", "[", "*", "$(", "`", "/..", "//", "/.", "../..", "/justfile", "./"]
 
 ROOT_JUSTFILE = """set shell := ["%(vsh)s", "-c"]
 mod m
@@ -101,7 +101,13 @@ grouped $x +ys:
 """
 MOD_JUSTFILE = "set shell := [\"%(vsh)s\", \"-c\"]\nr:\n  echo mod\nother q:\n  echo {{q}}\n"
 
+# every strftime specifier chrono knows or does not know, with the padding / alternate-form modifiers: an echoed line
+# formats the time with it (`%#z` parses but cannot be displayed; `%Q` does not parse)
+TIMESTAMP_FORMATS = (["%" + c for c in "abcdefghijklmnopqrstuvwxyzABCDEFGHIJKLMNOPQRSTUVWXYZ+%:#.-_0123456789"]
+                     + ["%" + m + c for m in "#:.-_0" for c in "zZfdHMSjyYsn3"] + ["%::z", "%:::z", "%3f", "%.3f", "%.6f", "%.9f", "%6f", "%9f", "%#"])
+
 OPTION_TEMPLATES = [
+    ["--justfile", "@", "--working-directory", "."], ["--justfile", "@", "--working-directory", ".", "--list"], ["-f", "@", "-d", "@", "r"],
     ["--show", "@"], ["--list", "@"], ["--usage", "@"], ["--set", "v", "@"], ["--set", "@", "x"], ["@"], ["r", "@"], ["r", "@", "@"],
     ["--shell", "@", "r"], ["--shell-arg", "@", "r"], ["--timestamp", "--timestamp-format", "@", "r"], ["--dotenv-filename", "@", "r"],
     ["--dotenv-path", "@", "r"], ["--command", "@"], ["--justfile", "@"], ["--working-directory", "@", "--justfile", "justfile"],
@@ -327,6 +333,9 @@ def run(report):
             cases.append({"kind": "cli", "files": base_files, "argv": argv})
     for argv in PLAIN_ARGVS:
         cases.append({"kind": "cli", "files": base_files, "argv": argv})
+    for f in TIMESTAMP_FORMATS:
+        cases.append({"kind": "cli", "files": base_files, "argv": ["--timestamp", "--timestamp-format", f, "r"]})
+        cases.append({"kind": "cli", "files": base_files, "argv": ["r"], "env": {"JUST_TIMESTAMP": "true", "JUST_TIMESTAMP_FORMAT": f}})
     # environment variables with hostile values
     for var in ENV_VARS:
         vals = ops if thorough else [o for o in ops if len(o) < 100][::2] + ["x" * 5000]
